@@ -215,7 +215,7 @@ def run(tier):
         rs = os.path.join(d, "g.rs")
         if not os.path.exists(os.path.join(d, "done")):
             open(os.path.join(d, "g.lalrpop"), "w").write(text)
-            p = subprocess.run([lal, "-f", "g.lalrpop"], cwd=d, stdout=subprocess.PIPE, stderr=subprocess.STDOUT, text=True, timeout=120)
+            p = subprocess.run([lal, "-f", "g.lalrpop"], cwd=d, stdout=subprocess.PIPE, stderr=subprocess.STDOUT, text=True, timeout=1200)
             open(os.path.join(d, "done"), "w").write(p.stdout[-3000:])
         if not os.path.exists(rs):
             rejected += 1
